@@ -404,6 +404,9 @@ def match_known(known, prop, ob):
     return None
 
 
+OPTIONAL_CLAUSES = {}      # property -> substrings of clause ids that may legitimately be absent (set by the property module)
+
+
 def check_ledger(prop, obs):
     p = os.path.join(ROOT, 'obligations.lock.json')
     if not os.path.exists(p):
@@ -412,7 +415,9 @@ def check_ledger(prop, obs):
         led = json.load(f)
     want = set(led.get(prop, []))
     have = {ob.clause for ob in obs if ob.kind not in ('canary', 'cover', 'bounded')}
-    return sorted(want - have)
+    # invariants of loops that are cut only where they exist (a body written without the loop is executed directly and its
+    # postconditions are still checked) are not required to be regenerated
+    return sorted(c for c in (want - have) if not any(o in c for o in OPTIONAL_CLAUSES.get(prop, ())))
 
 
 def update_ledger(prop, obs):
